@@ -101,4 +101,25 @@ CLAIMS = {
         "note": COMMON_NOTE + "Holds with the two header-syntax repairs (fix: commits in known_findings.json).",
         "technique": "Lean 4 proof (lemmas on trim/split/digit parsing, unfolding of the connection loop) + differential correspondence",
     },
+    "C07": {
+        "text": "Theorems queue_exactly_once (taken ++ queued = pushed as sequences: nothing lost, nothing duplicated, global FIFO), log_values_are_taken, no_lost_wakeup "
+                "(whenever a receiver is blocked, queued items <= receivers already runnable), quiescent_blocked_implies_empty, look_enabled — inductive invariants of the "
+                "MessagesQueue LTS over ALL label sequences: any number of producers/receivers, any mix of recv/try_recv/recv_timeout/unblock, any interleaving, wake-ups racing "
+                "with timeouts. Tied to the code by trace acceptance: the real messages_queue.rs (generated copy, std:: redirected) runs under a deterministic scheduler with a "
+                "virtual clock; each run's event log is mapped to LTS labels, must be accepted by the LTS, and the LTS must predict every returned value, the leftover queue and "
+                "the set of blocked receivers; the exactly-once/no-lost-wake-up predicate is also evaluated on the implementation's history.",
+        "design_ref": "6 (C07), 5 (M4), 3.3, 4",
+        "note": COMMON_NOTE + "Atomic-block reduction (all queue state is accessed under one mutex), verif_rt's Mutex/Condvar semantics (notify_one wakes one blocked waiter if any). "
+                "Partial: per-connection parse order comes from the connection-loop model; OS thread scheduling is only sampled.",
+        "technique": "Lean 4 proof (inductive invariants of an LTS) + trace acceptance of the real module under a deterministic scheduler",
+    },
+    "C17": {
+        "text": "Theorems token_conservation (tokens pushed = tokens consumed + tokens queued; each consumed token made exactly one call return empty-handed), "
+                "tokens_preserve_requests, try_recv_never_blocks, recv_empty_only_by_token, recv_timeout_bounds (on zero-latency executions a recv_timeout(T) returning "
+                "empty-handed without a token returns after more than T-1ms and less than 2T) — over all label sequences of the queue LTS. Same trace-acceptance tie as C07, with "
+                "virtual-clock call/return times compared exactly.",
+        "design_ref": "6 (C17), 5 (M4)",
+        "note": COMMON_NOTE + "Scheduling latency is outside the model (bounds proved for zero-latency runs; runs with injected latency are still trace-checked).",
+        "technique": "Lean 4 proof (counting invariant + arithmetic invariant of the timed loop) + trace acceptance under a virtual clock",
+    },
 }
